@@ -353,10 +353,20 @@ def portParse (scheme : Str) (p : Str) : Option (Option Nat) :=
     if n > 65535 then none
     else if defaultPort scheme = some n then some none else some (some n)
 
-/-- everything of the authority of a special URL: `auth` is the input up to the first `/ ? # \`, `tail` the rest -/
-def authorityState (scheme : Str) (s : Str) : Result :=
-  let auth := s.takeWhile (fun c => !isAuthEnd c)
-  let tail := s.dropWhile (fun c => !isAuthEnd c)
+/-- host state + port state on the two buffers, then the path start state on what follows the authority -/
+def hostPort (scheme username password hostBuf portBuf tail : Str) : Result :=
+  if hostBuf.isEmpty then .failure
+  else
+    match hostParse hostBuf with
+    | .failure => .failure
+    | .unsupported => .unsupported
+    | .ok host =>
+      match portParse scheme portBuf with
+      | none => .failure
+      | some port => .ok (pathStart ⟨scheme, username, password, host, port, [], none, none⟩ tail)
+
+/-- authority state on `auth` (the input up to the first `/ ? # \`), `tail` = the rest -/
+def authorityParts (scheme auth tail : Str) : Result :=
   let rp := rpartition '@' auth
   let hostport := rp.2.2
   if rp.2.1 && hostport.isEmpty then .failure
@@ -364,17 +374,12 @@ def authorityState (scheme : Str) (s : Str) : Result :=
     let cred := partition ':' rp.1
     let username := if rp.2.1 then encodeWith inUserinfoSet cred.1 else []
     let password := if rp.2.1 then encodeWith inUserinfoSet cred.2.2 else []
-    let (hostBuf, portBuf) := splitHostPort hostport false
-    if hostBuf.isEmpty then .failure
-    else
-      match hostParse hostBuf with
-      | .failure => .failure
-      | .unsupported => .unsupported
-      | .ok host =>
-        match portParse scheme (portBuf.getD []) with
-        | none => .failure
-        | some port =>
-          .ok (pathStart ⟨scheme, username, password, host, port, [], none, none⟩ tail)
+    let hp := splitHostPort hostport false
+    hostPort scheme username password hp.1 (hp.2.getD []) tail
+
+/-- everything of the authority of a special URL -/
+def authorityState (scheme : Str) (s : Str) : Result :=
+  authorityParts scheme (s.takeWhile (fun c => !isAuthEnd c)) (s.dropWhile (fun c => !isAuthEnd c))
 
 /-- special authority ignore slashes state -/
 def ignoreSlashes (scheme : Str) (s : Str) : Result := authorityState scheme (s.dropWhile isSlash)
@@ -403,9 +408,17 @@ def relativeState (base : Url) (s : Str) : Result :=
 
 /-! ## entry point -/
 
+/-- remove trailing C0 control or space -/
+def stripTrailing : Str → Str
+  | [] => []
+  | c :: r =>
+    match stripTrailing r with
+    | [] => if isC0OrSpace c then [] else [c]
+    | r' => c :: r'
+
 /-- strip leading and trailing C0 control or space, remove ASCII tab and newline -/
 def preprocess (input : Str) : Str :=
-  (((input.dropWhile isC0OrSpace).reverse.dropWhile isC0OrSpace).reverse).filter (fun c => !isTabNl c)
+  (stripTrailing (input.dropWhile isC0OrSpace)).filter (fun c => !isTabNl c)
 
 /-- scheme start state + scheme state: `some (scheme, rest)` when the input starts with `alpha (alnum|+|-|.)* ':'` -/
 def parseScheme (s : Str) : Option (Str × Str) :=
